@@ -84,6 +84,8 @@ pub fn threads(a: &HashMap<String, String>) -> i32 {
     let mut seen_connect = false;
     let mut idle_rounds = 0;
     let mut nwr = 0usize;
+    let lag = nthreads.saturating_sub(2).max(1);
+    let mut backlog: std::collections::VecDeque<(Pk, u16)> = std::collections::VecDeque::new();
     loop {
         let evs = pipe.drain_log();
         let mut progressed = false;
@@ -124,14 +126,26 @@ pub fn threads(a: &HashMap<String, String>) -> i32 {
                     _ => None,
                 };
                 if let Some(ack) = ack {
-                    // the identifier stays in use until the final acknowledgement of the exchange is injected
-                    writeln!(out, "{}", json!({"e": "tack", "t": mqtt::tname(ack.t), "id": id})).unwrap();
-                    pipe.inject(mqtt::encode(&ack, 9));
+                    // acknowledgements lag behind: up to `lag` exchanges stay open so that consecutive allocations are
+                    // outstanding together (lag < number of workers, or everybody would wait)
+                    backlog.push_back((ack, id));
+                    while backlog.len() > lag {
+                        let (ack, id) = backlog.pop_front().unwrap();
+                        // the identifier stays in use until the final acknowledgement of the exchange is injected
+                        writeln!(out, "{}", json!({"e": "tack", "t": mqtt::tname(ack.t), "id": id})).unwrap();
+                        pipe.inject(mqtt::encode(&ack, 9));
+                    }
                 }
             }
         }
         let all_done = workers.iter().all(|w| w.is_finished());
         if !progressed {
+            // nothing new on the wire: release one held acknowledgement so that the workers can go on
+            if let Some((ack, id)) = backlog.pop_front() {
+                writeln!(out, "{}", json!({"e": "tack", "t": mqtt::tname(ack.t), "id": id})).unwrap();
+                pipe.inject(mqtt::encode(&ack, 9));
+                continue;
+            }
             if all_done {
                 idle_rounds += 1;
                 if idle_rounds > 20 {
